@@ -621,6 +621,11 @@ impl PrimalSimplex {
             
             // Check optimality: all reduced costs <= 0
             if basis.is_dual_feasible(&reduced_costs, self.config.optimality_tol) {
+                // Optimal means feasible and optimal: never report a point that has
+                // drifted out of the feasible region as the optimum
+                if !basis.is_primal_feasible(&x, self.config.feasibility_tol) {
+                    return Err(LpError::NumericalInstability);
+                }
                 let objective = basis.objective_value(c, &x);
                 return Ok(LpSolution::new(
                     LpStatus::Optimal,
